@@ -165,12 +165,15 @@ def interpret(res, umap, crate):
                     fn = o['fn']
                 break
         if label is None:
-            if srcline:
-                label = '%s.%s@%s:%s' % ({'overflow': 'nopanic.overflow', 'pre': 'callsite.pre', 'assert': 'nopanic.assert',
-                                         'decreases': 'term', 'bounds': 'nopanic.bounds', 'divzero': 'nopanic.divzero',
-                                         'shift': 'nopanic.shift'}.get(kind, kind), fn, os.path.basename(srcline[0] or ''), srcline[1])
+            base = {'overflow': 'nopanic.overflow', 'assert': 'nopanic.assert', 'decreases': 'term.loop',
+                    'bounds': 'nopanic.bounds', 'divzero': 'nopanic.divzero', 'shift': 'nopanic.shift',
+                    'unreachable': 'nopanic.unreachable'}.get(kind)
+            if base and srcline:
+                label = '%s@%s:%s:%s' % (base, fn, os.path.basename(srcline[0] or ''), srcline[1])
+            elif srcline:
+                label = 'aux.%s.%s@%s:%s' % (fn, kind, os.path.basename(srcline[0] or ''), srcline[1])
             else:
-                label = '%s.%s' % (kind, fn)
+                label = 'aux.%s.%s' % (fn, kind)
         out['failures'].append({'kind': kind, 'label': label, 'fn': fn, 'src': srcline,
                                 'unit_line': prim['line_start'] if prim else None, 'msg': msg,
                                 'rendered': d.get('rendered', '')[:3000]})
